@@ -33,6 +33,9 @@ pub enum Op {
     Connect { l: u16 },
     /// the k-th held connection is released by its client (the service call finishes)
     Release { k: u16 },
+    /// the k-th held connection finishes by a panic inside its handler future (the runtime
+    /// contains it: the worker lives on, the connection is over)
+    ReleasePanic { k: u16 },
     /// wait until the server has served what it must serve (bounded), then check
     Settle,
     Pause,
@@ -156,6 +159,9 @@ where
             // hold the connection until the client releases it (a byte) or goes away
             let mut b = [0u8; 1];
             let _ = stream.read(&mut b).await;
+            if b[0] == b'P' {
+                panic!("verif: handler future panics on purpose");
+            }
             Ok(())
         })
     }
@@ -591,16 +597,23 @@ fn run_once(c: &Case, prop: Prop) -> Result<Obs, (Fail, bool)> {
                     }
                 }
             }
-            Op::Release { k } => {
+            Op::Release { k } | Op::ReleasePanic { k } => {
                 r.refresh();
+                let by_panic = matches!(op, Op::ReleasePanic { .. });
                 let held: Vec<usize> = r.clients.iter().enumerate().filter(|(_, c)| c.state == CState::Held).map(|(i, _)| i).collect();
                 if !held.is_empty() {
                     let i = held[vcore::pick(k, held.len())];
                     let sat = r.held() == r.workers * r.limit && r.waiting() > 0;
-                    let _ = r.clients[i].sock.write_all(b"x");
+                    let _ = r.clients[i].sock.write_all(if by_panic { b"P" } else { b"x" });
                     r.clients[i].state = CState::Released;
                     if sat {
                         r.label("release-while-saturated");
+                    }
+                    if by_panic {
+                        r.label("handler-panic");
+                        if sat {
+                            r.label("handler-panic-while-saturated");
+                        }
                     }
                 }
             }
@@ -1012,6 +1025,8 @@ pub mod gen {
         pub busy: u32,
         pub uds: bool,
         pub max_limit: usize,
+        /// weight of "a handler future panics" (finishes its connection by unwinding)
+        pub taskpanic: u32,
     }
 
     pub fn strategy(p: P) -> impl Strategy<Value = Case> {
@@ -1027,6 +1042,14 @@ pub mod gen {
                 v
             }).boxed()),
         ];
+        if p.taskpanic > 0 {
+            alts.push((p.taskpanic, sel().prop_map(|k| vec![Op::ReleasePanic { k }]).boxed()));
+            alts.push((p.taskpanic, (prop::collection::vec(sel(), 3..7), sel()).prop_map(|(ls, k)| {
+                let mut v: Vec<Op> = ls.into_iter().map(|l| Op::Connect { l }).collect();
+                v.extend([Op::Settle, Op::ReleasePanic { k }, Op::Settle]);
+                v
+            }).boxed()));
+        }
         if p.pause > 0 {
             alts.push((p.pause, (sel(), sel()).prop_map(|(l, l2)| vec![Op::Pause, Op::Connect { l }, Op::Connect { l: l2 }, Op::Sleep { ms: 150 }, Op::Resume, Op::Settle]).boxed()));
             alts.push((p.pause, Just(vec![Op::Pause]).boxed()));
